@@ -77,6 +77,7 @@ def valJson : Val → Json
   | .str s => Json.arr #[Json.str "str", textJson s]
   | .bytes b => Json.arr #[Json.str "bytes", hexJson b]
   | .tuple => Json.arr #[Json.str "tuple"]
+  | .junk => Json.arr #[Json.str "junk"]
 
 partial def jtypeOf (j : Json) : Except String JType :=
   match j with
